@@ -6,6 +6,7 @@ CONSTANTS
   MaxUrl = 2
   ReuseOnLookup = FALSE
   FabricatedNorm = TRUE
+  EmptyParam = TRUE
   WildHostCheck = TRUE
   KF_Shadow = TRUE
   Source = "all"
